@@ -208,6 +208,20 @@ class C04(Prop):
                         return 'the 1.0 decoder accepted a response that does not carry result and error with one of them null'
                     if case['proto'] == 'v2' and (not isinstance(p.get('jsonrpc'), str) or p.get('jsonrpc') != '2.0' or ('result' in p) == ('error' in p)):
                         return 'the 2.0 decoder accepted a response without "jsonrpc":"2.0" or without exactly one of result/error'
+            # every structural variant of an incoming message is classified as its version demands (read off the wire formats)
+            try:
+                pj = json.loads(bytes(case['msg']).decode('utf-8', 'surrogatepass'))
+            except Exception:
+                pj = None
+            if isinstance(pj, dict):
+                if obs['kind'] == 'resp' and 'method' in pj:
+                    return 'a message that has a "method" member (a request, however ill-formed) was read as a response'
+                if obs['kind'] in ('req', 'notif') and case['proto'] == 'v1' and not isinstance(pj.get('params'), list):
+                    return 'the 1.0 decoder accepted a request without a "params" array (1.0: positional params only, always present)'
+                if obs['kind'] == 'resp' and 'res' in obs and 'result' not in pj:
+                    return 'a message with no "result" member (and no error) was read as a successful response'
+            if isinstance(pj, list) and obs['kind'] == 'batch' and case['proto'] == 'v1':
+                return 'the 1.0 decoder accepted an array as a batch (1.0 has no batches)'
             if obs['kind'] in ('req', 'notif') and case['proto'] in ('v2', 'auto'):
                 try:
                     p = json.loads(bytes(case['msg']).decode('utf-8', 'surrogatepass'))
@@ -219,6 +233,15 @@ class C04(Prop):
         if k == 'detect':
             if isinstance(obs['proto'], str) and obs['proto'].startswith('escape'):
                 return None        # C05's concern
+            # an explicit version member is obeyed: the message is then decoded exactly as its originating version would
+            try:
+                pj = json.loads(bytes(case['msg']).decode('utf-8', 'surrogatepass'))
+            except Exception:
+                pj = None
+            if isinstance(pj, dict) and isinstance(pj.get('jsonrpc'), str):
+                want = {'2.0': 'V2', '1.0': 'V1'}.get(pj['jsonrpc'])
+                if want and obs['proto'] != want:
+                    return f'a message that says "jsonrpc":"{pj["jsonrpc"]}" was detected as {obs["proto"]}'
             return None
         if obs['bytes'] is None:
             v1 = case['proto'] == 'v1'
